@@ -1,7 +1,7 @@
 (* Comparison functions used by the generated correspondence cases for C13 (no proofs). *)
 From Coq Require Import List Arith Bool ZArith.
 From LV Require Pos.MetaSpan.
-From LV Require Import Inter.Heap Inter.IDriver Gen.InterHoles.
+From LV Require Import Inter.Heap Inter.IDriver Gen.InterHoles Inter.IGen.
 Import ListNotations.
 
 Definition FUEL : nat := 200.
@@ -102,7 +102,8 @@ Definition run_case_with (I : impl) (c : icase) : world * list obs :=
 
 Definition check_case_with (I : impl) (c : icase) : bool :=
   let '(w, os) := run_case_with I c in
-  cbs_wf (ic_rules c) (ic_cbs c) && obss_eqb os (ic_obs c) && finals_eqb (w_heap w) (w_ps w) (ic_finals c).
+  cbs_wf (ic_rules c) (ic_cbs c) && obss_eqb os (ic_obs c) && finals_eqb (w_heap w) (w_ps w) (ic_finals c) &&
+  no_end_shift_b (ic_acts c) (ic_e0 c).   (* hypothesis of C13_feed_control_regenerated, on lark's own table *)
 
 Definition check_case : icase -> bool := check_case_with impl_now.
 
